@@ -74,7 +74,24 @@ class SymSeries(SymArray):
 
     def _bin(self, o, f, dtype=None, reflected=False):
         if isinstance(o, SymSeries) and o.labels != self.labels:
-            raise Unsupported("arithmetic between Series with different index labels (alignment is not modelled)")
+            # pandas aligns on labels: the result carries the sorted union of the labels, a value where both operands have
+            # the label and NaN elsewhere (unique labels only; comparisons between differently labelled Series raise)
+            if len(set(self.labels)) != len(self.labels) or len(set(o.labels)) != len(o.labels):
+                raise Unsupported("arithmetic between Series with repeated, different index labels")
+            if dtype == "bool":
+                raise ValueError("Can only compare identically-labeled Series objects")
+            a, b = (o, self) if reflected else (self, o)
+            lab = sorted(set(self.labels) | set(o.labels))
+            vals = []
+            for l in lab:
+                if l in self.labels and l in o.labels:
+                    x, y = self.d[self.labels.index(l)], o.d[o.labels.index(l)]
+                    one = SymArray._bin(SymArray([x], self.dtype_tag), SymArray([y], o.dtype_tag), f, dtype)
+                    vals.append(one.d[0])
+                    tag = one.dtype_tag
+                else:
+                    vals.append(NA)
+            return SymSeries(vals, "f8", lab)
         r = SymArray._bin(self, _plain(o) if isinstance(o, SymSeries) else o, f, dtype)
         return self._wrap(r)
 
@@ -313,7 +330,21 @@ class _Loc:
         cols = None
         if isinstance(k, tuple):
             k, cols = k
-        out = self.frame[k] if not (isinstance(k, slice) and k == slice(None)) else self.frame.copy()
+        if (isinstance(k, SymArray) and k.dtype_tag in ("i8", "i4")) or (isinstance(k, list) and k and all(is_intlike(x) for x in k)):
+            # selection BY LABEL: for each requested label, in the order requested, every row that carries it (a label that
+            # occurs twice in the index brings both rows, once per request - what pandas does on a non-unique index)
+            want = [int(concrete(x)) for x in (k.d if isinstance(k, SymArray) else k)]
+            f = self.frame
+            lab = f.index_labels if f.index_labels is not None else list(range(len(f)))
+            idx = []
+            for w in want:
+                hit = [j for j, l in enumerate(lab) if l == w]
+                if not hit:
+                    raise KeyError(f"{w} not in index")
+                idx += hit
+            out = f._sub(idx)
+        else:
+            out = self.frame[k] if not (isinstance(k, slice) and k == slice(None)) else self.frame.copy()
         if cols is not None:
             out = out[cols] if isinstance(cols, list) else out[cols]
         return out
